@@ -383,6 +383,11 @@ func (c *SpecCtx) ident(name string) Value {
 		return t
 	}
 	if g, ok := c.ex.ghost[name]; ok {
+		if c.inOld {
+			if g0, ok := c.ex.ghostEntry[name]; ok {
+				return g0
+			}
+		}
 		return g
 	}
 	if c.pkg != nil {
@@ -412,13 +417,13 @@ func (c *SpecCtx) binary(e *ast.BinaryExpr) Value {
 		if a.IsFalse() {
 			return a
 		}
-		return And(a, c.term(e.Y))
+		return And(a, c.guarded(e.Y))
 	case token.LOR:
 		a := c.term(e.X)
 		if a.IsTrue() {
 			return a
 		}
-		return Or(a, c.term(e.Y))
+		return Or(a, c.guarded(e.Y))
 	}
 	xv, yv := c.eval(e.X), c.eval(e.Y)
 	// pointer comparisons
@@ -550,7 +555,7 @@ func (c *SpecCtx) call(e *ast.CallExpr) Value {
 		if a.IsFalse() {
 			return BoolC(true)
 		}
-		return Implies(a, c.term(e.Args[1]))
+		return Implies(a, c.guarded(e.Args[1]))
 	case "iff":
 		return Eq(c.term(e.Args[0]), c.term(e.Args[1]))
 	case "forall":
@@ -637,6 +642,9 @@ func (c *SpecCtx) call(e *ast.CallExpr) Value {
 			if s.Abs != nil {
 				return s.Abs.Len
 			}
+			if s.SymLen != nil {
+				return s.SymLen
+			}
 			return IntI(int64(s.Len))
 		case PtrV:
 			if at, ok := s.Typ.Underlying().(*types.Array); ok {
@@ -644,6 +652,27 @@ func (c *SpecCtx) call(e *ast.CallExpr) Value {
 			}
 		}
 		c.fail("len of unsupported value")
+	case "rndblock":
+		return rndBlock(c.term(e.Args[0]))
+	case "hexvalid":
+		o, ok := c.eval(e.Args[0]).(OpaqueV)
+		if !ok {
+			c.fail("hexvalid of non-string")
+		}
+		return ex.hexOf(fmt.Sprint(o.Data)).ok
+	case "hexbytes":
+		v := c.eval(e.Args[0])
+		if o, ok := v.(OpaqueV); ok {
+			if o.Kind == "hexstr" {
+				return o.Data.(SliceV)
+			}
+			m := ex.hexOf(fmt.Sprint(o.Data))
+			if m.bytes.Obj == nil {
+				m.bytes = ex.lenClassSlice("hexdec("+fmt.Sprint(o.Data)+")", hexLens)
+			}
+			return m.bytes
+		}
+		c.fail("hexbytes of %T", v)
 	case "fresh":
 		switch s := c.eval(e.Args[0]).(type) {
 		case SliceV:
@@ -747,6 +776,22 @@ func (c *SpecCtx) tryTerm(e ast.Expr) (t *Term) {
 		if r := recover(); r != nil {
 			if ee, ok := r.(engineError); ok && (strings.Contains(ee.msg, "nil p") || strings.Contains(ee.msg, "out of range")) {
 				t = BoolC(true)
+				return
+			}
+			panic(r)
+		}
+	}()
+	return c.term(e)
+}
+
+// guarded evaluates the right operand of a short-circuit connective. If it cannot be evaluated because it
+// indexes beyond a slice of this length class, it is replaced by an unconstrained Boolean (the left operand is
+// what excludes that case; an unknown is the conservative reading).
+func (c *SpecCtx) guarded(e ast.Expr) (t *Term) {
+	defer func() {
+		if r := recover(); r != nil {
+			if ee, ok := r.(engineError); ok && (strings.Contains(ee.msg, "out of range") || strings.Contains(ee.msg, "nil p")) {
+				t = Fresh("unevaluable", SBool)
 				return
 			}
 			panic(r)
